@@ -1568,7 +1568,7 @@ def run(ctx, light=False):
               ('periods', lambda: periods(ctx, res)), ('truncated', lambda: truncated(ctx, res)),
               ('long_tokens', lambda: long_tokens(ctx, res)), ('formats', lambda: formats(ctx, res)), ('aliases', lambda: aliases(ctx, res)), ('early_options', lambda: early_options(ctx, res)),
               ('function_arguments', lambda: function_arguments(ctx, res)),
-              ('mutation', lambda: mutation(ctx, res, ctx.scale(6000, 16000)))]
+              ('mutation', lambda: mutation(ctx, res, ctx.scale(8000, 16000)))]
     if ctx.tier == 'thorough' and not light:
         phases.append(('sanitizer', lambda: sanitizer_tier(ctx, res, sites)))
     res.extra['phase_wall_s'] = {}
